@@ -519,7 +519,7 @@ pub fn run(args: &Args) -> i32 {
         }
     });
     ctx.stats.merge(s);
-    eprintln!("  [C09] reader side done at {:.1}s ({} schedules)", ctx.elapsed(), items.len());
+    crate::diag!("  [C09] reader side done at {:.1}s ({} schedules)", ctx.elapsed(), items.len());
 
     // writer side
     let progs = writer_programs(seed);
@@ -638,7 +638,7 @@ pub fn run(args: &Args) -> i32 {
         }
     });
     ctx.stats.merge(s);
-    eprintln!("  [C09] writer side done at {:.1}s", ctx.elapsed());
+    crate::diag!("  [C09] writer side done at {:.1}s", ctx.elapsed());
 
     ctx.distinct_counted = counted;
     ctx.stats.states = counted;
